@@ -1,6 +1,7 @@
 ------------------------------- MODULE MC_Nav -------------------------------
-(* every XML-shaped tree with N nodes (single root element, text leaves, no    *)
-(* adjacent text siblings) and 0..2 attributes per element                     *)
+(* every XML-shaped tree with N nodes (single root element, text leaves -       *)
+(* adjacent text siblings included: character data cut by CDATA section         *)
+(* boundaries is several text nodes) and 0..2 attributes per element            *)
 EXTENDS Nav, Json
 CONSTANTS N, EmitCases
 VARIABLE D
@@ -10,8 +11,7 @@ Shapes == { p \in [1..N -> 0..(N - 1)] : p[1] = 0 /\ \A i \in 2..N : p[i] \in (A
 Docs == { d \in [n : {N}, par : Shapes, kind : [1..N -> {"E", "T"}], na : [1..N -> 0..2]] :
             /\ d.kind[1] = "E"
             /\ \A i \in 1..N : d.kind[i] = "T" => (d.na[i] = 0 /\ \A j \in 1..N : d.par[j] # i)
-            /\ \A i \in 2..N : d.kind[d.par[i]] = "E"
-            /\ \A i, j \in 1..N : (i < j /\ d.par[i] = d.par[j] /\ d.kind[i] = "T" /\ d.kind[j] = "T") => \E k \in (i + 1)..(j - 1) : d.par[k] = d.par[i] }
+            /\ \A i \in 2..N : d.kind[d.par[i]] = "E" }
 Init == D \in Docs
 Next == UNCHANGED D
 Spec == Init /\ [][Next]_D
